@@ -3,7 +3,7 @@ pid=sys.argv[1]
 props={json.loads(l)['id']:json.loads(l) for l in open('/verif/properties.jsonl')}
 p=props[pid]
 used=[]
-for L in 'ABCDE':
+for L in 'ABCDEFGHIJ':
     try: used.append(json.load(open(f'/verif/seeded/{pid}-{L}/meta.json'))['change'])
     except Exception: pass
 wt=f'/tmp/mut3-{pid}'
